@@ -218,7 +218,7 @@ func TestC08(t *testing.T) {
 	}
 	r.exhaustive("every concurrency c in 0..16 with n=4c+8 items: gated (in-flight count checked at every quiescent point, two release orders) and un-gated with a c-way barrier (all c must run simultaneously)")
 	// exhaustive release orders for small (n,c)
-	for si, sp := range [][2]int{{5, 2}, {6, 3}, {7, 3}, {7, 4}} {
+	for si, sp := range [][2]int{{5, 2}, {6, 3}, {7, 3}, {7, 4}, {8, 4}, {9, 3}, {8, 2}, {9, 4}}[:r.pick(4, 8)] {
 		if !r.mine(si) {
 			continue
 		}
